@@ -3,6 +3,7 @@ import ChiaModel.Props.C07
 import ChiaModel.Props.C11
 import ChiaModel.Lemmas.BundlePath
 import ChiaModel.Lemmas.BundlePerm
+import ChiaModel.Lemmas.BundleBase
 /-
 C08 — what the mempool validated is what the block yields.
 -/
@@ -443,6 +444,572 @@ theorem bundle_path_eq_block_path (p : Params) (css : List CoinSpendM) (puz : Na
     · rw [v1, r1, List.map_reverse, List.reverse_reverse]
     · rw [v7]; exact r13.symm
 
+
+/-! ## every flag value (INTERNED_GENERATOR included) and the error kinds -/
+
+/-- the signature stage of the block path passes on these (public key, signed text) pairs -/
+abbrev SigFine (p : Params) (pairs : List (Bytes × Bytes)) : Prop :=
+  hasFlag p.flags Gen.flagDontValidateSignature = true ∨ p.sigOk pairs = true
+
+theorem finishBundle_block_invalid {env : Env} (hm : env.mempool = false) {sigOk : List (Bytes × Bytes) → Bool}
+    {ret : Bundle} {st : PState} (hv : ¬ validOk ret st = true) : finishBundle env sigOk ret st = .error .reject := by
+  unfold finishBundle
+  simp only [postProcess_block env hm, validateConditions]
+  rw [if_neg hv]
+
+theorem finishBundle_block_sigfail {env : Env} (hm : env.mempool = false) {sigOk : List (Bytes × Bytes) → Bool}
+    {ret : Bundle} {st : PState} (hv : validOk ret st = true)
+    (hs : ¬(hasFlag env.flags Gen.flagDontValidateSignature = true ∨ sigOk st.pkmPairs = true)) :
+    finishBundle env sigOk ret st = .error .reject := by
+  unfold finishBundle
+  simp only [postProcess_block env hm, validateConditions]
+  rw [if_pos hv]
+  simp only
+  rw [if_pos]
+  constructor
+  · cases h : hasFlag env.flags Gen.flagDontValidateSignature with
+    | true => exact absurd (Or.inl h) hs
+    | false => rfl
+  · cases h : sigOk st.pkmPairs with
+    | true => exact absurd (Or.inr h) hs
+    | false => rfl
+
+/-- **The two paths on the same spend order, any base costs, full verdict.**  `g` is a quoted generator
+listing the spends of `css` in order (`Built`), its size cost on the block path is `N`, the bundle path charges
+`B` up front; the limits are related by `L' − N = L − B + 20` (written without subtraction).  Provided the
+LIMIT_SPENDS test of the bundle path passes:
+
+* if the bundle path fails, the block path fails with the SAME error kind;
+* if the bundle path accepts and the signature stage passes on its pairs, the block path accepts with the same
+  conditions modulo the visitor, `cost + B = cost + 20 + N`, execution cost + 20;
+* if the bundle path accepts and the signature stage fails on its pairs, the block path rejects. -/
+theorem paths_same_order (B N : Nat) (p : Params) (css : List CoinSpendM) (puz : Nat → RunRes) (L L' : Nat) (g : GenInput)
+    (hg : Built g css) (hN : nativeBase p g = N) (hL : L' + B = L + 20 + N)
+    (hph : ∀ s ∈ css, s.puzzleHash = Sexp.treeHash s.puzzle) (hlen : css.length < 2^64) (hm : ¬ TooMany p css) :
+    (∀ e, runBundleWith B p css puz L = .error e → native p g (quoteRun css) puz L' = .error e) ∧
+    (∀ bb pairs, runBundleWith B p css puz L = .ok (bb, pairs) →
+      (SigFine p pairs → ∃ bn, native p g (quoteRun css) puz L' = .ok bn ∧ SameUpToVisitor bn bb ∧
+        bn.cost + B = bb.cost + 20 + N ∧ bn.executionCost = bb.executionCost + 20) ∧
+      (¬ SigFine p pairs → native p g (quoteRun css) puz L' = .error .reject)) := by
+  by_cases hB : B ≤ L
+  · have hrel0 : BlkRel 20 { executionCost := 20 } {} := ⟨rfl, rfl⟩
+    have hrel := nativeLoop_bundleLoop (mpEnv p) puz 20 css 0 { executionCost := 20 } {} {} (spendLimit p.flags) (L - B)
+      hph (spendLimit_ge hlen hm) hrel0
+    change LoopRel 20 (nativeLoop (nativeEnv p) puz _ 0 _ _ _ _) _ at hrel
+    rw [runBundleWith_loop hB hm, native_built_loop hg hN (by omega), show L' - N - 20 = L - B by omega]
+    cases hBl : bundleLoop (mpEnv p) puz css 0 {} {} (L - B) with
+    | error eB =>
+      rw [hBl] at hrel
+      cases hNl : nativeLoop (nativeEnv p) puz (Sexp.ofList (css.map item)) 0 { executionCost := 20 } {} (spendLimit p.flags) (L - B) with
+      | ok q => rw [hNl] at hrel; simp only [LoopRel] at hrel
+      | error eN =>
+        rw [hNl] at hrel; simp only [LoopRel] at hrel
+        subst hrel
+        refine ⟨fun e he => ?_, fun bb pairs hb => ?_⟩
+        · simpa using he
+        · cases hb
+    | ok qB =>
+      obtain ⟨⟨retB, st⟩, left⟩ := qB
+      rw [hBl] at hrel
+      cases hNl : nativeLoop (nativeEnv p) puz (Sexp.ofList (css.map item)) 0 { executionCost := 20 } {} (spendLimit p.flags) (L - B) with
+      | error eN => rw [hNl] at hrel; simp only [LoopRel] at hrel
+      | ok qN =>
+        obtain ⟨⟨retN, stN⟩, leftN⟩ := qN
+        rw [hNl] at hrel; simp only [LoopRel] at hrel
+        obtain ⟨e1, e2, hrelN⟩ := hrel
+        subst e1; subst e2
+        have hle := bundleLoop_le _ _ _ _ _ _ _ _ _ _ hBl
+        have hvv : validOk retN stN = validOk (postProcess (mpEnv p) retB stN) stN := validOk_blkRel (mpEnv p) hrelN stN
+        simp only
+        by_cases hv : validOk (postProcess (mpEnv p) retB stN) stN = true
+        · have hvN : validOk retN stN = true := by rw [hvv]; exact hv
+          simp only [validateConditions, hv, if_true]
+          refine ⟨fun e he => (by cases he), fun bb pairs hb => ?_⟩
+          injection hb with hb; injection hb with hb1 hb2
+          subst hb1; subst hb2
+          refine ⟨fun hs => ?_, fun hs => ?_⟩
+          · rw [finishBundle_block_of (env := nativeEnv p) rfl (sigOk := p.sigOk) hvN hs]
+            refine ⟨_, rfl, sameUpToVisitor_of_blkRel _ _ hrelN _ _ _, ?_, ?_⟩
+            · simp only; omega
+            · obtain ⟨_, h2⟩ := hrelN
+              obtain ⟨_, p2⟩ := postProcess_blk (mpEnv p) retB stN
+              simp only
+              rw [p2, h2]
+          · rw [finishBundle_block_sigfail (env := nativeEnv p) rfl (sigOk := p.sigOk) hvN hs]
+        · have hvN : ¬ validOk retN stN = true := by rw [hvv]; exact hv
+          simp only [validateConditions, hv, if_false, Bool.false_eq_true]
+          rw [finishBundle_block_invalid (env := nativeEnv p) rfl (sigOk := p.sigOk) hvN]
+          refine ⟨fun e he => ?_, fun bb pairs hb => by cases hb⟩
+          simpa using he
+  · rw [runBundleWith_small (by omega), native_built_small hg hN (by omega)]
+    exact ⟨fun e he => by simpa using he, fun bb pairs hb => by cases hb⟩
+
+/-- with more spends than LIMIT_SPENDS allows, both paths fail: the bundle path with `reject` (after the size
+cost; `costExceeded` when even that does not fit), the block path with some error — the limit is tested inside
+its loop, after the first 6000 spends were processed, so the kinds need not agree
+(`error_kind_differs_too_many_spends`) -/
+theorem paths_too_many (B N : Nat) (p : Params) (css : List CoinSpendM) (puz : Nat → RunRes) (L L' : Nat) (g : GenInput)
+    (hg : Built g css) (hN : nativeBase p g = N) (hm : TooMany p css) :
+    runBundleWith B p css puz L = .error (if B ≤ L then .reject else .costExceeded) ∧
+    ∃ e, native p g (quoteRun css) puz L' = .error e := by
+  constructor
+  · by_cases hB : B ≤ L
+    · rw [if_pos hB, runBundleWith_many hB hm]
+    · rw [if_neg hB, runBundleWith_small (by omega)]
+  · by_cases hB : N + 20 ≤ L'
+    · rw [native_built_loop hg hN hB]
+      obtain ⟨e, he⟩ := nativeLoop_too_long_error (nativeEnv p) puz (css.map item) 0 { executionCost := 20 } {}
+        (spendLimit p.flags) (L' - N - 20) (by
+          simp only [spendLimit, hm.1, if_true, List.length_map]; exact hm.2)
+      rw [he]; exact ⟨e, rfl⟩
+    · exact ⟨_, native_built_small hg hN (by omega)⟩
+
+/-- the fixed difference between the cost (and the limit) of the block path on `build_generator css` and of the
+bundle path on `css`: the quote's execution cost 20, plus — in byte-cost mode only — the two bytes of the quote
+wrapper.  Under INTERNED_GENERATOR both paths intern the SAME tree (`build_generator css`, wrapper included),
+so the size costs coincide. -/
+def offset (p : Params) : Nat :=
+  if hasFlag p.flags Gen.flagInternedGenerator then 20 else 20 + 2 * p.costPerByte
+
+/-- the size-cost part of `offset` -/
+def wrapperCost (p : Params) : Nat := if hasFlag p.flags Gen.flagInternedGenerator then 0 else 2 * p.costPerByte
+
+theorem offset_eq (p : Params) : offset p = 20 + wrapperCost p := by
+  unfold offset wrapperCost; split <;> rfl
+
+/-- the generator inputs of `build_generator css`, plainly serialised -/
+def builtInput (css : List CoinSpendM) : GenInput :=
+  { len := (Sexp.serialize (buildGenerator css)).length, startsQuote := true, prog := buildGenerator css, nrefs := 0 }
+
+theorem built_builtInput (css : List CoinSpendM) : Built (builtInput css) css.reverse :=
+  ⟨by show buildGenerator css = _; rw [buildGenerator_eq, List.map_reverse], rfl, rfl⟩
+
+theorem quoteRun_reverse (css : List CoinSpendM) : quoteRun css.reverse = some (20, quoted (builtInput css).prog) := by
+  show _ = some (20, quoted (buildGenerator css))
+  rw [buildGenerator_eq, quoteRun, List.map_reverse]; rfl
+
+/-- **Size costs of the two paths, every flag value**: the block path's size cost of `build_generator css`
+(plain serialisation) is the bundle path's base cost plus `wrapperCost` — two bytes' worth in byte-cost mode,
+NOTHING under INTERNED_GENERATOR. -/
+theorem base_cost_offset_all_flags (p : Params) (css : List CoinSpendM) (h : ∀ s ∈ css, WF s) :
+    nativeBase p (builtInput css) = bundleBase p css + wrapperCost p := by
+  unfold nativeBase bundleBase wrapperCost
+  by_cases hint : hasFlag p.flags Gen.flagInternedGenerator = true
+  · simp only [hint, if_true, Nat.add_zero]; rfl
+  · simp only [hint, if_false, Bool.false_eq_true]
+    exact base_cost_offset css h p.costPerByte
+
+/-- **The bundle path and the block path agree, for ALL flag values** (INTERNED_GENERATOR included) —
+`run_spendbundle` on a spend bundle against `run_block_generator2` on the generator `build_generator` builds
+from it.  Hypotheses and conclusions as in `bundle_path_eq_block_path`, with the flag hypothesis dropped and the
+limit / cost difference `offset p` = `20 + 2·cost_per_byte` in byte-cost mode and exactly `20` under
+INTERNED_GENERATOR: there the bundle path interns `build_generator css` itself, the very tree the block path
+interns after decoding, so only the quote's execution cost separates the two. -/
+theorem bundle_path_eq_block_path_all_flags (p : Params) (css : List CoinSpendM) (puz : Nat → RunRes) (L : Nat)
+    (hwf : ∀ s ∈ css, WF s) (hph : ∀ s ∈ css, s.puzzleHash = Sexp.treeHash s.puzzle)
+    (hlen : css.length < 2^64)
+    (hsig : ∀ pairs pairs', List.Perm pairs pairs' → p.sigOk pairs = p.sigOk pairs') :
+    let g : GenInput := { len := (Sexp.serialize (buildGenerator css)).length, startsQuote := true,
+                          prog := buildGenerator css, nrefs := 0 }
+    let genRun : RunRes := some (20, quoted g.prog)
+    let L' := L + offset p
+    let puzG : Nat → RunRes := fun i => puz (css.length - 1 - i)
+    (∀ bb pairs, runSpendbundle p css puz L = .ok (bb, pairs) →
+      (hasFlag p.flags Gen.flagDontValidateSignature = true ∨ p.sigOk pairs = true) →
+      ∃ bn, native p g genRun puzG L' = .ok bn ∧ SameUpToVisitorRev bn bb ∧
+        bn.cost = bb.cost + offset p ∧ bn.executionCost = bb.executionCost + 20) ∧
+    (∀ bn, native p g genRun puzG L' = .ok bn →
+      ∃ bb pairs, runSpendbundle p css puz L = .ok (bb, pairs) ∧
+        (hasFlag p.flags Gen.flagDontValidateSignature = true ∨ p.sigOk pairs = true) ∧ SameUpToVisitorRev bn bb ∧
+        bn.cost = bb.cost + offset p ∧ bn.executionCost = bb.executionCost + 20) := by
+  intro g genRun L' puzG
+  have hgB : Built g css.reverse := built_builtInput css
+  have hgen : genRun = quoteRun css.reverse := (quoteRun_reverse css).symm
+  have hN : nativeBase p g = bundleBase p css + wrapperCost p := base_cost_offset_all_flags p css hwf
+  have hphr : ∀ s ∈ css.reverse, s.puzzleHash = Sexp.treeHash s.puzzle := fun s hs => hph s (List.mem_reverse.mp hs)
+  have hlenr : css.reverse.length < 2^64 := by rw [List.length_reverse]; exact hlen
+  have hL : L' + bundleBase p css = L + 20 + (bundleBase p css + wrapperCost p) := by
+    show L + offset p + _ = _; rw [offset_eq]; omega
+  rw [hgen]
+  constructor
+  · intro bb pairs hb hs
+    rw [runSpendbundle_with] at hb
+    obtain ⟨hB, hlim, _⟩ := (runBundleWith_rules _ p css puz L bb pairs).mp hb
+    have hmr : ¬ TooMany p css.reverse := by unfold TooMany; rw [List.length_reverse]; exact hlim
+    obtain ⟨bb', pairs', hb', hpp, r1, r2, r3, r4, r5, r6, r7, r8, r9, r10, r11, _, r13⟩ :=
+      runBundleWith_reverse _ p css puz puzG L bb pairs (fun k _ => rfl) hb
+    have hs' : SigFine p pairs' := by unfold SigFine; rw [← hsig _ _ hpp]; exact hs
+    obtain ⟨bn, hn, ⟨v1, v2, v3, v4, v5, v6, v7, v8, v9, v10⟩, hc, he⟩ :=
+      ((paths_same_order _ _ p css.reverse puzG L L' g hgB hN hL hphr hlenr hmr).2 bb' pairs' hb').1 hs'
+    refine ⟨bn, hn, ⟨?_, v2.trans r3, v3.trans r4, v4.trans r5, v5.trans r6, v6.trans r7, ?_, v8.trans r8, v9.trans r9,
+      v10.trans r10⟩, by rw [offset_eq]; omega, by rw [he, r11]⟩
+    · rw [v1, r1, List.map_reverse]
+    · rw [v7]; exact r13
+  · intro bn hn
+    -- the bundle path on the generator's order cannot fail (else the block path would), so it accepts
+    have hmr : ¬ TooMany p css.reverse := by
+      intro hm
+      obtain ⟨e, he⟩ := (paths_too_many (bundleBase p css) _ p css.reverse puzG L L' g hgB hN hm).2
+      rw [hn] at he; cases he
+    obtain ⟨h1, h2⟩ := paths_same_order _ _ p css.reverse puzG L L' g hgB hN hL hphr hlenr hmr
+    cases hb' : runBundleWith (bundleBase p css) p css.reverse puzG L with
+    | error e => rw [h1 e hb'] at hn; cases hn
+    | ok q =>
+      obtain ⟨bb', pairs'⟩ := q
+      obtain ⟨h3, h4⟩ := h2 bb' pairs' hb'
+      by_cases hs' : SigFine p pairs'
+      · obtain ⟨bn', hn', ⟨v1, v2, v3, v4, v5, v6, v7, v8, v9, v10⟩, hc, he⟩ := h3 hs'
+        rw [hn] at hn'; injection hn' with hn'; subst hn'
+        have hpuz : ∀ k, k < css.reverse.length → puz k = puzG (css.reverse.length - 1 - k) := by
+          intro k hk
+          rw [List.length_reverse] at hk
+          show puz k = puz (css.length - 1 - (css.reverse.length - 1 - k))
+          rw [List.length_reverse]
+          congr 1; omega
+        obtain ⟨bb, pairs, hb, hpp, r1, r2, r3, r4, r5, r6, r7, r8, r9, r10, r11, _, r13⟩ :=
+          runBundleWith_reverse _ p css.reverse puzG puz L bb' pairs' hpuz hb'
+        rw [List.reverse_reverse] at hb
+        have hs : hasFlag p.flags Gen.flagDontValidateSignature = true ∨ p.sigOk pairs = true := by
+          rw [← hsig _ _ hpp]; exact hs'
+        refine ⟨bb, pairs, hb, hs, ⟨?_, v2.trans r3.symm, v3.trans r4.symm, v4.trans r5.symm, v5.trans r6.symm,
+          v6.trans r7.symm, ?_, v8.trans r8.symm, v9.trans r9.symm, v10.trans r10.symm⟩, by rw [offset_eq]; omega, by rw [he, r11]⟩
+        · rw [v1, r1, List.map_reverse, List.reverse_reverse]
+        · rw [v7]; exact r13.symm
+      · rw [h4 hs'] at hn; cases hn
+
+/-- **INTERNED_GENERATOR mode** (goal form of `bundle_path_eq_block_path_all_flags` with the flag set): accept iff
+accept, the same conditions, and the block cost is the bundle cost plus EXACTLY 20 — the quote's execution cost;
+no size-cost term, because both paths charge the interned size of the same tree `build_generator css`. -/
+theorem bundle_path_eq_block_path_interned (p : Params) (css : List CoinSpendM) (puz : Nat → RunRes) (L : Nat)
+    (hwf : ∀ s ∈ css, WF s) (hph : ∀ s ∈ css, s.puzzleHash = Sexp.treeHash s.puzzle)
+    (hint : hasFlag p.flags Gen.flagInternedGenerator = true) (hlen : css.length < 2^64)
+    (hsig : ∀ pairs pairs', List.Perm pairs pairs' → p.sigOk pairs = p.sigOk pairs') :
+    let g : GenInput := { len := (Sexp.serialize (buildGenerator css)).length, startsQuote := true,
+                          prog := buildGenerator css, nrefs := 0 }
+    let genRun : RunRes := some (20, quoted g.prog)
+    let L' := L + 20
+    let puzG : Nat → RunRes := fun i => puz (css.length - 1 - i)
+    (∀ bb pairs, runSpendbundle p css puz L = .ok (bb, pairs) →
+      (hasFlag p.flags Gen.flagDontValidateSignature = true ∨ p.sigOk pairs = true) →
+      ∃ bn, native p g genRun puzG L' = .ok bn ∧ SameUpToVisitorRev bn bb ∧
+        bn.cost = bb.cost + 20 ∧ bn.executionCost = bb.executionCost + 20) ∧
+    (∀ bn, native p g genRun puzG L' = .ok bn →
+      ∃ bb pairs, runSpendbundle p css puz L = .ok (bb, pairs) ∧
+        (hasFlag p.flags Gen.flagDontValidateSignature = true ∨ p.sigOk pairs = true) ∧ SameUpToVisitorRev bn bb ∧
+        bn.cost = bb.cost + 20 ∧ bn.executionCost = bb.executionCost + 20) := by
+  have h := bundle_path_eq_block_path_all_flags p css puz L hwf hph hlen hsig
+  have ho : offset p = 20 := by unfold offset; rw [if_pos hint]
+  rw [ho] at h
+  exact h
+
+
+
+/-- the error kind of a result (`none` = accepted); used to let the kernel compute verdicts -/
+def errKind {α : Type} : R α → Option Err
+  | .ok _ => none
+  | .error e => some e
+
+theorem errKind_some {α : Type} {x : R α} {e : Err} (h : errKind x = some e) : x = .error e := by
+  cases x with
+  | ok a => cases h
+  | error e' => injection h with h; rw [h]
+
+/-- the cost of an accepted result (`none` = failed) -/
+def okCost : R Bundle → Option Nat
+  | .ok b => some b.cost
+  | .error _ => none
+
+/-! ## error kinds -/
+
+/-- **Full verdict, same spend order, every flag value.**  `css` against the quoted generator that lists its
+spends in the SAME order (`build_generator css.reverse`, plainly serialised), limits related by
+`L' − size cost of the block path = L − base cost of the bundle path + 20` (written without subtraction; in
+byte-cost mode this is `L' = L + 20 + 2·cost_per_byte`, see `verdict_same_order_byte_cost`).  When the bundle has
+no more spends than LIMIT_SPENDS allows:
+
+* if `run_spendbundle` fails, `run_block_generator2` fails with the SAME error kind;
+* if `run_block_generator2` fails with kind `e`, then `run_spendbundle` fails with the same kind `e`, or it
+  accepts and the failure is the signature stage (`e = reject`, the check fails on the returned pairs);
+* accept/accept with the same conditions modulo the visitor and the exact cost relation. -/
+theorem verdict_same_order (p : Params) (css : List CoinSpendM) (puz : Nat → RunRes) (L L' : Nat)
+    (hph : ∀ s ∈ css, s.puzzleHash = Sexp.treeHash s.puzzle) (hlen : css.length < 2^64)
+    (hm : ¬(hasFlag p.flags Gen.flagLimitSpends ∧ css.length > MAX_SPENDS_PER_BLOCK)) :
+    let g : GenInput := { len := (Sexp.serialize (buildGenerator css.reverse)).length, startsQuote := true,
+                          prog := buildGenerator css.reverse, nrefs := 0 }
+    let genRun : RunRes := some (20, quoted g.prog)
+    L' + bundleBase p css = L + 20 + nativeBase p g →
+    (∀ e, runSpendbundle p css puz L = .error e → native p g genRun puz L' = .error e) ∧
+    (∀ e, native p g genRun puz L' = .error e →
+      runSpendbundle p css puz L = .error e ∨
+      (e = .reject ∧ ∃ bb pairs, runSpendbundle p css puz L = .ok (bb, pairs) ∧
+        ¬(hasFlag p.flags Gen.flagDontValidateSignature = true ∨ p.sigOk pairs = true))) ∧
+    (∀ bb pairs, runSpendbundle p css puz L = .ok (bb, pairs) →
+      (hasFlag p.flags Gen.flagDontValidateSignature = true ∨ p.sigOk pairs = true) →
+      ∃ bn, native p g genRun puz L' = .ok bn ∧ SameUpToVisitor bn bb ∧
+        bn.cost + bundleBase p css = bb.cost + 20 + nativeBase p g ∧ bn.executionCost = bb.executionCost + 20) := by
+  intro g genRun hL
+  have hgB : Built g css := by
+    have := built_builtInput css.reverse
+    rw [List.reverse_reverse] at this; exact this
+  have hgen : genRun = quoteRun css := by
+    have := quoteRun_reverse css.reverse
+    rw [List.reverse_reverse] at this; exact this.symm
+  rw [hgen]
+  obtain ⟨h1, h2⟩ := paths_same_order (bundleBase p css) (nativeBase p g) p css puz L L' g hgB rfl hL hph hlen hm
+  rw [runSpendbundle_with]
+  refine ⟨h1, fun e hn => ?_, fun bb pairs hb hs => ((h2 bb pairs hb).1 hs)⟩
+  cases hb : runBundleWith (bundleBase p css) p css puz L with
+  | error e' =>
+    rw [h1 e' hb] at hn; injection hn with hn; subst hn
+    exact Or.inl rfl
+  | ok q =>
+    obtain ⟨bb, pairs⟩ := q
+    by_cases hs : SigFine p pairs
+    · obtain ⟨bn, hn', _⟩ := (h2 bb pairs hb).1 hs
+      rw [hn] at hn'; cases hn'
+    · rw [(h2 bb pairs hb).2 hs] at hn; injection hn with hn; subst hn
+      exact Or.inr ⟨rfl, bb, pairs, rfl, hs⟩
+
+/-- `verdict_same_order` in byte-cost mode, for plainly serialised reveals: the limit relation is
+`L' = L + 20 + 2·cost_per_byte` -/
+theorem verdict_same_order_byte_cost (p : Params) (css : List CoinSpendM) (puz : Nat → RunRes) (L : Nat)
+    (hwf : ∀ s ∈ css, WF s) (hph : ∀ s ∈ css, s.puzzleHash = Sexp.treeHash s.puzzle)
+    (hint : hasFlag p.flags Gen.flagInternedGenerator = false) (hlen : css.length < 2^64)
+    (hm : ¬(hasFlag p.flags Gen.flagLimitSpends ∧ css.length > MAX_SPENDS_PER_BLOCK)) :
+    let g : GenInput := { len := (Sexp.serialize (buildGenerator css.reverse)).length, startsQuote := true,
+                          prog := buildGenerator css.reverse, nrefs := 0 }
+    let genRun : RunRes := some (20, quoted g.prog)
+    let L' := L + 20 + 2 * p.costPerByte
+    (∀ e, runSpendbundle p css puz L = .error e → native p g genRun puz L' = .error e) ∧
+    (∀ e, native p g genRun puz L' = .error e →
+      runSpendbundle p css puz L = .error e ∨
+      (e = .reject ∧ ∃ bb pairs, runSpendbundle p css puz L = .ok (bb, pairs) ∧
+        ¬(hasFlag p.flags Gen.flagDontValidateSignature = true ∨ p.sigOk pairs = true))) := by
+  intro g genRun L'
+  have hwfr : ∀ s ∈ css.reverse, WF s := fun s hs => hwf s (List.mem_reverse.mp hs)
+  have hN : nativeBase p g = bundleBase p css + 2 * p.costPerByte := by
+    have := base_cost_offset_all_flags p css.reverse hwfr
+    unfold wrapperCost at this
+    rw [if_neg (by simp [hint])] at this
+    have e : bundleBase p css.reverse = bundleBase p css := by
+      unfold bundleBase
+      simp only [hint, Bool.false_eq_true, if_false, calculateGeneratorLength_reverse]
+    rw [e] at this; exact this
+  have h := verdict_same_order p css puz L L' hph hlen hm (by show L' + _ = L + 20 + nativeBase p g; rw [hN]; omega)
+  exact ⟨h.1, h.2.1⟩
+
+/-- **Too many spends: both paths fail, not necessarily alike.**  With LIMIT_SPENDS set and more than 6000 spends,
+`run_spendbundle` fails with `reject` (TooManySpends is tested before the first spend; `costExceeded` when the
+size cost alone exceeds the limit), and `run_block_generator2` on `build_generator css` fails under EVERY limit and
+puzzle results — but it tests the limit inside the loop, after 6000 spends have been run and parsed, so it may
+report a different kind (`error_kind_differs_too_many_spends`). -/
+theorem verdict_too_many (p : Params) (css : List CoinSpendM) (puz puzG : Nat → RunRes) (L L' : Nat)
+    (hm : hasFlag p.flags Gen.flagLimitSpends ∧ css.length > MAX_SPENDS_PER_BLOCK) :
+    let g : GenInput := { len := (Sexp.serialize (buildGenerator css)).length, startsQuote := true,
+                          prog := buildGenerator css, nrefs := 0 }
+    let genRun : RunRes := some (20, quoted g.prog)
+    runSpendbundle p css puz L = .error (if bundleBase p css ≤ L then .reject else .costExceeded) ∧
+    ∃ e, native p g genRun puzG L' = .error e := by
+  intro g genRun
+  have hgen : genRun = quoteRun css.reverse := (quoteRun_reverse css).symm
+  have hmr : TooMany p css.reverse := by unfold TooMany; rw [List.length_reverse]; exact hm
+  rw [hgen, runSpendbundle_with]
+  refine ⟨?_, (paths_too_many (bundleBase p css) (nativeBase p g) p css.reverse puzG L L' g (built_builtInput css) rfl hmr).2⟩
+  by_cases hB : bundleBase p css ≤ L
+  · rw [if_pos hB, runBundleWith_many hB hm]
+  · rw [if_neg hB, runBundleWith_small (by omega)]
+
+/-- **Reject iff reject, for `build_generator`'s own order and every flag value.**  Setting of
+`bundle_path_eq_block_path_all_flags`.  If `run_spendbundle` fails then `run_block_generator2` fails; if
+`run_block_generator2` fails then `run_spendbundle` fails, or it accepts and the signature stage is what failed
+(then the kind is `reject`); and when the limit does not even cover the size cost both report `costExceeded`.
+The error KINDS of two failing runs can differ — `error_kind_differs_reversed_order` (a cost-exceeded race in
+the reversed order) and `error_kind_differs_too_many_spends` —; for equal spend order and at most 6000 spends
+they agree (`verdict_same_order`). -/
+theorem both_fail (p : Params) (css : List CoinSpendM) (puz : Nat → RunRes) (L : Nat)
+    (hwf : ∀ s ∈ css, WF s) (hph : ∀ s ∈ css, s.puzzleHash = Sexp.treeHash s.puzzle)
+    (hlen : css.length < 2^64)
+    (hsig : ∀ pairs pairs', List.Perm pairs pairs' → p.sigOk pairs = p.sigOk pairs') :
+    let g : GenInput := { len := (Sexp.serialize (buildGenerator css)).length, startsQuote := true,
+                          prog := buildGenerator css, nrefs := 0 }
+    let genRun : RunRes := some (20, quoted g.prog)
+    let L' := L + offset p
+    let puzG : Nat → RunRes := fun i => puz (css.length - 1 - i)
+    (∀ e, runSpendbundle p css puz L = .error e → ∃ e', native p g genRun puzG L' = .error e') ∧
+    (∀ e', native p g genRun puzG L' = .error e' →
+      (∃ e, runSpendbundle p css puz L = .error e) ∨
+      (e' = .reject ∧ ∃ bb pairs, runSpendbundle p css puz L = .ok (bb, pairs) ∧
+        ¬(hasFlag p.flags Gen.flagDontValidateSignature = true ∨ p.sigOk pairs = true))) ∧
+    (L < bundleBase p css → runSpendbundle p css puz L = .error .costExceeded ∧
+      native p g genRun puzG L' = .error .costExceeded) := by
+  intro g genRun L' puzG
+  obtain ⟨ha, hb⟩ := bundle_path_eq_block_path_all_flags p css puz L hwf hph hlen hsig
+  have hgB : Built g css.reverse := built_builtInput css
+  have hgen : genRun = quoteRun css.reverse := (quoteRun_reverse css).symm
+  have hN : nativeBase p g = bundleBase p css + wrapperCost p := base_cost_offset_all_flags p css hwf
+  have hL : L' + bundleBase p css = L + 20 + (bundleBase p css + wrapperCost p) := by
+    show L + offset p + _ = _; rw [offset_eq]; omega
+  refine ⟨fun e he => ?_, fun e' hn => ?_, fun hlt => ?_⟩
+  · cases hn : native p g genRun puzG L' with
+    | error e' => exact ⟨e', rfl⟩
+    | ok bn =>
+      obtain ⟨bb, pairs, hb', _⟩ := hb bn hn
+      rw [he] at hb'; cases hb'
+  · cases hbb : runSpendbundle p css puz L with
+    | error e => exact Or.inl ⟨e, rfl⟩
+    | ok q =>
+      obtain ⟨bb, pairs⟩ := q
+      by_cases hs : SigFine p pairs
+      · obtain ⟨bn, hn', _⟩ := ha bb pairs hbb hs
+        rw [hn] at hn'; cases hn'
+      · refine Or.inr ⟨?_, bb, pairs, rfl, hs⟩
+        rw [runSpendbundle_with] at hbb
+        obtain ⟨_, hlim, _⟩ := (runBundleWith_rules _ p css puz L bb pairs).mp hbb
+        have hmr : ¬ TooMany p css.reverse := by unfold TooMany; rw [List.length_reverse]; exact hlim
+        obtain ⟨bb', pairs', hb', hpp, _⟩ := runBundleWith_reverse _ p css puz puzG L bb pairs (fun k _ => rfl) hbb
+        have hs' : ¬ SigFine p pairs' := by unfold SigFine; rw [← hsig _ _ hpp]; exact hs
+        have := ((paths_same_order _ _ p css.reverse puzG L L' g hgB hN hL
+          (fun s hs => hph s (List.mem_reverse.mp hs)) (by rw [List.length_reverse]; exact hlen) hmr).2 bb' pairs' hb').2 hs'
+        rw [hgen, this] at hn; injection hn with hn; exact hn.symm
+  · refine ⟨by rw [runSpendbundle_with]; exact runBundleWith_small hlt, ?_⟩
+    rw [hgen]
+    exact native_built_small hgB hN (by omega)
+
+/-! ## serialisation modes -/
+
+/-- **The block path reads the generator bytes only through (length, quote prefix, decoded program, number of
+references).**  For two serialisations `g₁`, `g₂` of the same program (same decoded tree — plain or
+back-reference compressed —, same quote prefix, same references):
+
+* under INTERNED_GENERATOR the results of `run_block_generator2` are EQUAL — verdict, error kind, conditions and
+  cost — under every limit: the size cost is that of the interned tree, not of the bytes;
+* in byte-cost mode, if `g₂` is `d` bytes longer, then its result under `L + d·cost_per_byte` is the result of
+  `g₁` under `L` with `d·cost_per_byte` added to the cost: same verdict, same error kind, same conditions
+  (both directions, since this is an equation). -/
+theorem serialization_independent (p : Params) (g₁ g₂ : GenInput) (genRun : RunRes) (puz : Nat → RunRes) (L : Nat)
+    (hq : g₁.startsQuote = g₂.startsQuote) (hp : g₁.prog = g₂.prog) (hr : g₁.nrefs = g₂.nrefs) :
+    (hasFlag p.flags Gen.flagInternedGenerator = true →
+      native p g₂ genRun puz L = native p g₁ genRun puz L) ∧
+    (hasFlag p.flags Gen.flagInternedGenerator = false → ∀ d, g₂.len = g₁.len + d →
+      native p g₂ genRun puz (L + d * p.costPerByte) =
+        (native p g₁ genRun puz L).map (fun b => { b with cost := b.cost + d * p.costPerByte })) := by
+  constructor
+  · intro hint
+    unfold native
+    simp only [hint, if_true, hq, hp, hr]
+  · intro hint d hd
+    have hb : nativeBase p g₂ = nativeBase p g₁ + d * p.costPerByte := by
+      unfold nativeBase
+      simp only [hint, Bool.false_eq_true, if_false, hd, Nat.add_mul]
+    rw [native_eq, native_eq, nativeCountdown_rebase p g₁ g₂ genRun puz L _ hp hr hb, hq]
+    by_cases h0 : simpleGen p.flags ∧ !g₂.startsQuote
+    · rw [if_pos h0, if_pos h0]; rfl
+    rw [if_neg h0, if_neg h0]
+    cases hl : nativeCountdown p g₁ genRun puz L with
+    | error e => rfl
+    | ok q =>
+      obtain ⟨⟨ret, st⟩, left⟩ := q
+      simp only
+      obtain ⟨s1, _, _⟩ := shift_nativeCountdown p g₁ genRun puz L (ret, st) left hl
+      cases finishBundle (nativeEnv p) p.sigOk ret st with
+      | error e => rfl
+      | ok b =>
+        simp only [Except.map]
+        congr 2
+        omega
+
+/-- the accepted case of `serialization_independent`, spelled out in both directions: in byte-cost mode a
+serialisation `d` bytes longer is accepted under `L + d·cost_per_byte` iff the shorter one is accepted under `L`,
+with the same conditions and the cost `d·cost_per_byte` higher -/
+theorem serialization_independent_accept (p : Params) (g₁ g₂ : GenInput) (genRun : RunRes) (puz : Nat → RunRes) (L d : Nat)
+    (hq : g₁.startsQuote = g₂.startsQuote) (hp : g₁.prog = g₂.prog) (hr : g₁.nrefs = g₂.nrefs)
+    (hint : hasFlag p.flags Gen.flagInternedGenerator = false) (hd : g₂.len = g₁.len + d) :
+    (∀ b₁, native p g₁ genRun puz L = .ok b₁ →
+      native p g₂ genRun puz (L + d * p.costPerByte) = .ok { b₁ with cost := b₁.cost + d * p.costPerByte }) ∧
+    (∀ b₂, native p g₂ genRun puz (L + d * p.costPerByte) = .ok b₂ →
+      ∃ b₁, native p g₁ genRun puz L = .ok b₁ ∧ b₂ = { b₁ with cost := b₁.cost + d * p.costPerByte }) := by
+  have h := (serialization_independent p g₁ g₂ genRun puz L hq hp hr).2 hint d hd
+  constructor
+  · intro b₁ h1
+    rw [h, h1]; rfl
+  · intro b₂ h2
+    rw [h] at h2
+    cases h1 : native p g₁ genRun puz L with
+    | error e => rw [h1] at h2; cases h2
+    | ok b₁ =>
+      rw [h1] at h2
+      injection h2 with h2
+      exact ⟨b₁, rfl, h2.symm⟩
+
+
+/-- what a serialisation `d` bytes shorter than the plain one saves on the block path: `d` bytes' worth in byte-cost
+mode, nothing under INTERNED_GENERATOR (the size cost is that of the tree) -/
+def saving (p : Params) (d : Nat) : Nat := if hasFlag p.flags Gen.flagInternedGenerator then 0 else d * p.costPerByte
+
+/-- **The bundle path against ANY serialisation of its generator, every flag value.**  Let `g'` describe any byte
+string that decodes to `build_generator css` (plain, back-reference compressed, …: decoded program
+`build_generator css`, the `ff 01` quote prefix, no references), `d` bytes shorter than the plain serialisation (the
+length is irrelevant under INTERNED_GENERATOR), and let the limits satisfy `L' + saving = L + offset`.  Then
+`run_spendbundle css` under `L` and `run_block_generator2` on `g'` under `L'` accept together, with the same
+conditions (`SameUpToVisitorRev`), block cost + saving = bundle cost + offset, execution cost + 20.  In particular
+the cost the mempool computed at admission, plus the fixed `offset`, is an upper bound of the block cost of every
+serialisation and is attained by the plain one: a fee-per-cost decision made at admission is not invalidated at
+block inclusion. -/
+theorem bundle_path_eq_block_path_any_serialization (p : Params) (css : List CoinSpendM) (puz : Nat → RunRes) (L L' d : Nat)
+    (hwf : ∀ s ∈ css, WF s) (hph : ∀ s ∈ css, s.puzzleHash = Sexp.treeHash s.puzzle)
+    (hlen : css.length < 2^64)
+    (hsig : ∀ pairs pairs', List.Perm pairs pairs' → p.sigOk pairs = p.sigOk pairs')
+    (g' : GenInput) (hprog : g'.prog = buildGenerator css) (hq : g'.startsQuote = true) (hr : g'.nrefs = 0)
+    (hd : hasFlag p.flags Gen.flagInternedGenerator = false → (Sexp.serialize (buildGenerator css)).length = g'.len + d)
+    (hL : L' + saving p d = L + offset p) :
+    let genRun : RunRes := some (20, quoted g'.prog)
+    let puzG : Nat → RunRes := fun i => puz (css.length - 1 - i)
+    (∀ bb pairs, runSpendbundle p css puz L = .ok (bb, pairs) →
+      (hasFlag p.flags Gen.flagDontValidateSignature = true ∨ p.sigOk pairs = true) →
+      ∃ bn, native p g' genRun puzG L' = .ok bn ∧ SameUpToVisitorRev bn bb ∧
+        bn.cost + saving p d = bb.cost + offset p ∧ bn.executionCost = bb.executionCost + 20) ∧
+    (∀ bn, native p g' genRun puzG L' = .ok bn →
+      ∃ bb pairs, runSpendbundle p css puz L = .ok (bb, pairs) ∧
+        (hasFlag p.flags Gen.flagDontValidateSignature = true ∨ p.sigOk pairs = true) ∧ SameUpToVisitorRev bn bb ∧
+        bn.cost + saving p d = bb.cost + offset p ∧ bn.executionCost = bb.executionCost + 20) := by
+  intro genRun puzG
+  obtain ⟨ha, hb⟩ := bundle_path_eq_block_path_all_flags p css puz L hwf hph hlen hsig
+  have hgen : genRun = some (20, quoted (buildGenerator css)) := by show some (20, quoted g'.prog) = _; rw [hprog]
+  rw [hgen]
+  -- the plain serialisation under `L + offset p` against `g'` under `L'`
+  have key : native p (builtInput css) (some (20, quoted (buildGenerator css))) puzG (L + offset p) =
+      (native p g' (some (20, quoted (buildGenerator css))) puzG L').map (fun b => { b with cost := b.cost + saving p d }) := by
+    obtain ⟨k1, k2⟩ := serialization_independent p g' (builtInput css) (some (20, quoted (buildGenerator css))) puzG L'
+      hq hprog hr
+    by_cases hint : hasFlag p.flags Gen.flagInternedGenerator = true
+    · have hs0 : saving p d = 0 := by unfold saving; rw [if_pos hint]
+      rw [hs0] at hL ⊢
+      rw [← hL, Nat.add_zero, k1 hint]
+      cases native p g' (some (20, quoted (buildGenerator css))) puzG L' with
+      | error e => rfl
+      | ok b => rfl
+    · have hint' : hasFlag p.flags Gen.flagInternedGenerator = false := by simpa using hint
+      have hs0 : saving p d = d * p.costPerByte := by unfold saving; rw [if_neg hint]
+      rw [hs0] at hL ⊢
+      rw [← hL]
+      exact k2 hint' d (hd hint')
+  constructor
+  · intro bb pairs hbb hs
+    obtain ⟨bn, hn, ⟨v1, v2, v3, v4, v5, v6, v7, v8, v9, v10⟩, hc, he⟩ := ha bb pairs hbb hs
+    change native p (builtInput css) (some (20, quoted (buildGenerator css))) puzG (L + offset p) = .ok bn at hn
+    rw [key] at hn
+    cases hn' : native p g' (some (20, quoted (buildGenerator css))) puzG L' with
+    | error e => rw [hn'] at hn; cases hn
+    | ok bn' =>
+      rw [hn'] at hn
+      injection hn with hn; subst hn
+      exact ⟨bn', rfl, ⟨v1, v2, v3, v4, v5, v6, v7, v8, v9, v10⟩, hc, he⟩
+  · intro bn' hn'
+    have hn : native p (builtInput css) (some (20, quoted (buildGenerator css))) puzG (L + offset p) =
+        .ok { bn' with cost := bn'.cost + saving p d } := by rw [key, hn']; rfl
+    obtain ⟨bb, pairs, hbb, hs, ⟨v1, v2, v3, v4, v5, v6, v7, v8, v9, v10⟩, hc, he⟩ := hb _ hn
+    exact ⟨bb, pairs, hbb, hs, ⟨v1, v2, v3, v4, v5, v6, v7, v8, v9, v10⟩, hc, he⟩
+
 /-! ## non-vacuity of the hypotheses -/
 namespace Witness
 
@@ -485,6 +1052,95 @@ example : ∀ pairs pairs' : List (Bytes × Bytes), List.Perm pairs pairs' → p
 
 /-- the bundle path accepts the two-spend bundle: the first half of `bundle_path_eq_block_path` is not vacuous -/
 example : (runSpendbundle p0 [cs0, cs1] puz0 2000000).toBool = true := by decide +kernel
+
+
+/-! ### INTERNED_GENERATOR, error kinds, serialisation modes -/
+
+/-- INTERNED_GENERATOR set -/
+def pI : Params := { flags := Gen.flagInternedGenerator, pkOk := fun _ => true, sigOk := fun _ => true }
+
+example : hasFlag pI.flags Gen.flagInternedGenerator = true := by decide
+
+/-- under INTERNED_GENERATOR the bundle path accepts the two-spend bundle: `bundle_path_eq_block_path_interned`
+and `bundle_path_eq_block_path_all_flags` are not vacuous in that mode … -/
+example : (runSpendbundle pI [cs0, cs1] puz0 2000000).toBool = true := by decide +kernel
+
+/-- … and on it the costs are what the theorem says: interned size 100 → 100·12000 + 2·5 on the bundle path, 20
+more on the block path under the limit `L + 20` -/
+example : okCost ((runSpendbundle pI [cs0, cs1] puz0 2000000).map (·.1)) = some 1200010 ∧
+    okCost (native pI (builtInput [cs0, cs1]) (some (20, quoted (buildGenerator [cs0, cs1]))) (fun i => puz0 (2 - 1 - i))
+      (2000000 + 20)) = some 1200030 := by decide +kernel
+
+/-- a coin spend whose puzzle reveal is the list cell `(item cs1 . nil)` -/
+def csA : CoinSpendM :=
+  { cs0 with puzzle := .pair (item cs1) Sexp.nil, puzzleHash := Sexp.treeHash (.pair (item cs1) Sexp.nil),
+             puzzleLen := (Sexp.serialize (.pair (item cs1) Sexp.nil)).length }
+
+example : ∀ s ∈ [csA, cs1], WF s := by
+  intro s hs
+  simp only [List.mem_cons, List.mem_nil_iff, or_false] at hs
+  rcases hs with rfl | rfl <;> exact ⟨by decide, by decide, by decide +kernel, by decide⟩
+
+/-- **The interned size of `build_generator` depends on the ORDER of the spends** (a spine cell of the spend list
+coincides with a subtree of a reveal in one order only): this is why, under INTERNED_GENERATOR, the comparison of
+`run_spendbundle css` is with `build_generator css` itself — for which both paths intern the same tree — and why
+the same-order statement `verdict_same_order` relates the limits through both size costs instead of a constant. -/
+example : internedVbytes (buildGenerator [csA, cs1]) = 106 ∧ internedVbytes (buildGenerator [cs1, csA]) = 103 := by
+  decide +kernel
+
+/-- the first puzzle raises, every other one costs more than any limit used here -/
+def puzR : Nat → RunRes := fun i => if i = 0 then none else some (1000000000000, Sexp.nil)
+
+/-- **Counterexample: for `build_generator`'s own (reversed) order the error kinds can differ.**  A well-formed
+two-spend bundle with matching puzzle hashes whose first puzzle raises and whose second puzzle is too costly:
+`run_spendbundle` meets the raising puzzle first (`reject`), `run_block_generator2` on `build_generator css` meets
+the costly one first (`costExceeded`).  So "same error kind" is FALSE in the setting of
+`bundle_path_eq_block_path_all_flags`; `both_fail` is what holds. -/
+theorem error_kind_differs_reversed_order :
+    runSpendbundle p0 [cs0, cs1] puzR 1000000000 = .error .reject ∧
+    native p0 (builtInput [cs0, cs1]) (some (20, quoted (buildGenerator [cs0, cs1]))) (fun i => puzR (2 - 1 - i))
+      (1000000000 + offset p0) = .error .costExceeded :=
+  ⟨errKind_some (by decide +kernel), errKind_some (by decide +kernel)⟩
+
+/-- LIMIT_SPENDS set -/
+def pL : Params := { flags := Gen.flagLimitSpends, pkOk := fun _ => true, sigOk := fun _ => true }
+/-- 6001 spends -/
+def many : List CoinSpendM := List.replicate 6001 cs0
+def puzBig : Nat → RunRes := fun _ => some (1000000000000, Sexp.nil)
+
+theorem many_wf : ∀ s ∈ many, WF s := by
+  intro s hs
+  rw [List.eq_of_mem_replicate hs]
+  exact ⟨by decide, by decide, by decide, by decide⟩
+
+/-- **Counterexample: with more spends than LIMIT_SPENDS allows the error kinds can differ** (same spend order:
+the bundle is 6001 copies of one spend, so it equals its reverse).  `run_spendbundle` tests the number of spends
+before running anything (`reject`); `run_block_generator2` runs the first puzzle first, which exceeds the limit
+(`costExceeded`).  So the side condition "at most 6000 spends" of `verdict_same_order` cannot be dropped;
+`verdict_too_many` is what holds. -/
+theorem error_kind_differs_too_many_spends :
+    (hasFlag pL.flags Gen.flagLimitSpends ∧ many.length > MAX_SPENDS_PER_BLOCK) ∧ many.reverse = many ∧
+    runSpendbundle pL many puzBig 4000000000 = .error .reject ∧
+    native pL (builtInput many) (some (20, quoted (buildGenerator many))) puzBig (4000000000 + offset pL)
+      = .error .costExceeded := by
+  refine ⟨by decide +kernel, List.reverse_replicate .., errKind_some (by decide +kernel), ?_⟩
+  have hN : nativeBase pL (builtInput many) = 3024564000 := by
+    rw [base_cost_offset_all_flags pL many many_wf]; decide +kernel
+  have hgen : (some (20, quoted (buildGenerator many)) : RunRes) = quoteRun many.reverse := (quoteRun_reverse many).symm
+  rw [hgen, native_built_loop (built_builtInput many) hN (by decide)]
+  have hk : errKind (nativeLoop (nativeEnv pL) puzBig (Sexp.ofList (many.reverse.map item)) 0 { executionCost := 20 } {}
+      (spendLimit pL.flags) (4000000000 + offset pL - 3024564000 - 20)) = some .costExceeded := by decide +kernel
+  rw [errKind_some hk]
+
+/-- the block path accepts `build_generator [cs0, cs1]`, plainly serialised: the accepted case of
+`serialization_independent` is not vacuous … -/
+example : (native p0 (builtInput [cs0, cs1]) (some (20, quoted (buildGenerator [cs0, cs1]))) puz0 2000000).toBool = true := by
+  decide +kernel
+
+/-- … and a serialisation of the same tree that is 3 bytes shorter (as a back-reference form would be) satisfies its
+hypotheses -/
+example : (builtInput [cs0, cs1]).len = ({ builtInput [cs0, cs1] with len := (builtInput [cs0, cs1]).len - 3 } : GenInput).len + 3 := by
+  decide +kernel
 
 end Witness
 
